@@ -98,6 +98,7 @@ func (c06) Gen(env *Env, seed uint64, tier string, i int) *Case {
 	if len(c.Files) == 0 {
 		c.AddFile("nm0.go", NonMatchingFile(r, r.Pick(Styles), ""), "nomatch", nil, "")
 	}
+	AddDecoys(c, r)
 	c.Flags = Flags{Diff: r.Chance(1, 3), Print: r.Chance(1, 3), SkipImport: r.Chance(1, 3), SkipGen: r.Chance(1, 3), Verbose: r.Chance(1, 3)}
 	// targets: individual files, or the project directory
 	switch r.Intn(3) {
@@ -244,6 +245,16 @@ func (c06) Eval(env *Env, c *Case) []Violation {
 			} else if !bytes.Equal(ares.Out, before.Data) {
 				add("api", "bytes", fmt.Sprintf("Apply on unmatched file %s did not return the input bytes: %q", f.Path, clip(string(ares.Out), 200)))
 			}
+		}
+	}
+	// (6b) nothing that is not a Go file is ever touched
+	for _, st := range init {
+		if st.Kind != world.KFile || strings.HasSuffix(st.Path, ".go") {
+			continue
+		}
+		g := FindState(r.Final, st.Path)
+		if g == nil || !bytes.Equal(g.Data, st.Data) || g.Ino != st.Ino || g.Mtime != st.Mtime {
+			add("bystander", "non-go-file", fmt.Sprintf("%s is not a Go file but was removed or modified", st.Path))
 		}
 	}
 	// (7) the run still succeeds
